@@ -39,7 +39,7 @@ var c20States = []string{"intact", "repairable", "mangled", "noparity-mangled", 
 func (c *c20) Cases(tier string, seed int64) []core.Case {
 	var cs []core.Case
 	r := core.Rng("C20", tier, seed)
-	reps := map[string]int{"quick": 1, "thorough": 6}[tier]
+	reps := map[string]int{"quick": 1, "thorough": 20}[tier]
 	for k := 0; k < reps; k++ {
 		for _, f := range []string{"par2", "par1"} {
 			for _, st := range c20States {
